@@ -45,6 +45,8 @@ pub struct Ctx {
     pub scale: f64,
     pub replaying: bool,
     pub findings: findings::Findings,
+    /// directory with the outputs of the Miri driver (extra engine of C10)
+    pub miri_outputs: Option<PathBuf>,
 }
 
 impl Ctx {
@@ -133,6 +135,7 @@ fn main() {
         scale: 1.0,
         replaying: false,
         findings: findings::Findings::default(),
+        miri_outputs: None,
     };
     if let Ok(t) = std::env::var("VERIF_TIER") {
         if t == "thorough" {
@@ -166,6 +169,10 @@ fn main() {
             "--cli-debug" => {
                 i += 1;
                 ctx.cli_debug = args.get(i).map(PathBuf::from);
+            }
+            "--miri-outputs" => {
+                i += 1;
+                ctx.miri_outputs = args.get(i).map(PathBuf::from);
             }
             "--cli-release" => {
                 i += 1;
